@@ -342,6 +342,17 @@ where
             None => return Err(SendAttachErrorKind::IllegalState),
         };
 
+        // A sending link endpoint that attaches again carries on from its current
+        // delivery-count. That is the initial-delivery-count its attach has to state: the
+        // receiver takes its own delivery-count from it, so stating the value of the first
+        // attachment would cost one credit per delivery sent before. (Nothing changes on the
+        // first attach, where the two values are equal.)
+        if matches!(R::into_role(), Role::Sender) {
+            self.flow_state
+                .as_ref()
+                .restart_from_current_delivery_count();
+        }
+
         let unsettled_map_len = if is_reattaching {
             // If reattaching, the unsettled map MUST be null
             //
